@@ -224,6 +224,8 @@ class Lab:
             return ("exc", e)
 
     def close(self):
+        for fn in getattr(self, "cleanups", []):
+            fn()
         self._rem.threading, self._rem._ensure_event_loop_running = self._saved
         try:
             self.loop.close()
